@@ -267,3 +267,184 @@ def write_if_changed(path: Path, text: str) -> bool:
 
 def source_hash(path: Path) -> str:
     return hashlib.sha256(path.read_bytes()).hexdigest()[:16]
+
+
+# ---------------------------------------------------------------------------------------------------------------------
+# Pure integer functions (module level): Z / option Z / bool parameters and locals.
+
+class FunctionTranslator:
+    """`def f(a, b, ...)` whose body uses: docstring, `if/elif/else`, assignments to local names (also `q, r = divmod(a, b)`),
+    `return e` / `return e1, e2`; expressions over int constants, names, named module constants (`consts`), + - * // %, unary -,
+    `min(a, b)` / `max(a, b)`, comparisons, `x is None` / `x is not None` as an `if` test on an option-typed name (inside the
+    not-None branch the name denotes the payload), `and` / `or` / `not`.  `//` and `%` are Python's floor division / modulo =
+    Coq's Z.div / Z.modulo (divisor 0: Python raises, Coq yields 0 - callers state the precondition).  Anything else: Untranslatable."""
+
+    def __init__(self, name: str, types: dict[str, str], consts: dict[str, str]):
+        self.name, self.types, self.consts = name, dict(types), consts
+
+    def expr(self, e, env: dict[str, str], ty: dict[str, str]) -> tuple[str, str]:
+        if isinstance(e, ast.Constant):
+            if e.value is True or e.value is False:
+                return ("true" if e.value else "false"), "bool"
+            if isinstance(e.value, int):
+                return f"({e.value})%Z", "Z"
+            raise Untranslatable(f"{self.name}: constant {e.value!r}")
+        if isinstance(e, ast.Name):
+            if e.id in env:
+                return env[e.id], ty[e.id]
+            if e.id in self.consts:
+                return self.consts[e.id], "Z"
+            raise Untranslatable(f"{self.name}: unknown name {e.id}")
+        if isinstance(e, ast.UnaryOp) and isinstance(e.op, ast.USub):
+            a, ta = self.expr(e.operand, env, ty)
+            if ta != "Z":
+                raise Untranslatable(f"{self.name}: unary minus on {ta}")
+            return f"(Z.opp {a})", "Z"
+        if isinstance(e, ast.UnaryOp) and isinstance(e.op, ast.Not):
+            a, ta = self.expr(e.operand, env, ty)
+            if ta != "bool":
+                raise Untranslatable(f"{self.name}: `not` on {ta} (Python truthiness is not translated)")
+            return f"(negb {a})", "bool"
+        if isinstance(e, ast.BinOp):
+            ops = {ast.Add: "Z.add", ast.Sub: "Z.sub", ast.Mult: "Z.mul", ast.FloorDiv: "Z.div", ast.Mod: "Z.modulo"}
+            if type(e.op) not in ops:
+                raise Untranslatable(f"{self.name}: operator {type(e.op).__name__}")
+            (a, ta), (b, tb) = self.expr(e.left, env, ty), self.expr(e.right, env, ty)
+            if ta != "Z" or tb != "Z":
+                raise Untranslatable(f"{self.name}: arithmetic on {ta}, {tb}")
+            return f"({ops[type(e.op)]} {a} {b})", "Z"
+        if isinstance(e, ast.Call) and isinstance(e.func, ast.Name) and e.func.id in ("min", "max") and len(e.args) == 2 and not e.keywords:
+            (a, ta), (b, tb) = self.expr(e.args[0], env, ty), self.expr(e.args[1], env, ty)
+            if ta != "Z" or tb != "Z":
+                raise Untranslatable(f"{self.name}: {e.func.id} on {ta}, {tb}")
+            return f"(Z.{e.func.id} {a} {b})", "Z"
+        if isinstance(e, ast.Compare) and len(e.ops) == 1:
+            op, right = e.ops[0], e.comparators[0]
+            (a, ta), (b, tb) = self.expr(e.left, env, ty), self.expr(right, env, ty)
+            if ta != "Z" or tb != "Z":
+                raise Untranslatable(f"{self.name}: comparison on {ta}, {tb}")
+            table = {ast.Eq: f"Z.eqb {a} {b}", ast.NotEq: f"negb (Z.eqb {a} {b})", ast.Lt: f"Z.ltb {a} {b}", ast.LtE: f"Z.leb {a} {b}",
+                     ast.Gt: f"Z.ltb {b} {a}", ast.GtE: f"Z.leb {b} {a}"}
+            if type(op) not in table:
+                raise Untranslatable(f"{self.name}: comparison {type(op).__name__}")
+            return f"({table[type(op)]})", "bool"
+        if isinstance(e, ast.BoolOp):
+            parts = [self.expr(v, env, ty) for v in e.values]
+            if any(t != "bool" for _, t in parts):
+                raise Untranslatable(f"{self.name}: and/or on non-bool (Python truthiness is not translated)")
+            op = " && " if isinstance(e.op, ast.And) else " || "
+            return "(" + op.join(p for p, _ in parts) + ")", "bool"
+        raise Untranslatable(f"{self.name}: expression {ast.dump(e)[:80]}")
+
+    @staticmethod
+    def assigned(stmts) -> list[str]:
+        out: list[str] = []
+        for s in stmts:
+            if isinstance(s, ast.Assign):
+                for t in s.targets:
+                    for n in (t.elts if isinstance(t, ast.Tuple) else [t]):
+                        if isinstance(n, ast.Name) and n.id not in out:
+                            out.append(n.id)
+            elif isinstance(s, ast.If):
+                for n in FunctionTranslator.assigned(s.body) + FunctionTranslator.assigned(s.orelse):
+                    if n not in out:
+                        out.append(n)
+        return out
+
+    @staticmethod
+    def returns(stmts) -> bool:
+        return any(isinstance(s, ast.Return) or (isinstance(s, ast.If) and (FunctionTranslator.returns(s.body) or FunctionTranslator.returns(s.orelse)))
+                   for s in stmts)
+
+    def none_test(self, t, ty):
+        """(name, positive?) for `x is None` / `x is not None` on an option-typed name"""
+        if isinstance(t, ast.Compare) and len(t.ops) == 1 and isinstance(t.ops[0], (ast.Is, ast.IsNot)) and isinstance(t.left, ast.Name) \
+                and isinstance(t.comparators[0], ast.Constant) and t.comparators[0].value is None and ty.get(t.left.id) == "optZ":
+            return t.left.id, isinstance(t.ops[0], ast.IsNot)
+        return None
+
+    def block(self, stmts, env, ty, k) -> str:
+        """k(env, ty) gives the term when the block falls through (None: falling through is an error = every path must return)"""
+        if not stmts:
+            if k is None:
+                raise Untranslatable(f"{self.name}: a path without return")
+            return k(env, ty)
+        s, rest = stmts[0], stmts[1:]
+        if isinstance(s, ast.Expr) and isinstance(s.value, ast.Constant) and isinstance(s.value.value, str):
+            return self.block(rest, env, ty, k)
+        if isinstance(s, ast.Return):
+            if s.value is None:
+                raise Untranslatable(f"{self.name}: bare return")
+            if isinstance(s.value, ast.Tuple):
+                return "(" + ", ".join(self.expr(x, env, ty)[0] for x in s.value.elts) + ")"
+            return self.expr(s.value, env, ty)[0]
+        if isinstance(s, ast.Assign) and len(s.targets) == 1:
+            t = s.targets[0]
+            if isinstance(t, ast.Name):
+                v, tv = self.expr(s.value, env, ty)
+                fresh = t.id
+                return f"let {fresh} := {v} in\n  " + self.block(rest, {**env, t.id: fresh}, {**ty, t.id: tv}, k)
+            if isinstance(t, ast.Tuple) and len(t.elts) == 2 and all(isinstance(n, ast.Name) for n in t.elts) and isinstance(s.value, ast.Call) \
+                    and isinstance(s.value.func, ast.Name) and s.value.func.id == "divmod" and len(s.value.args) == 2:
+                (a, ta), (b, tb) = self.expr(s.value.args[0], env, ty), self.expr(s.value.args[1], env, ty)
+                if ta != "Z" or tb != "Z":
+                    raise Untranslatable(f"{self.name}: divmod on {ta}, {tb}")
+                q, r = t.elts[0].id, t.elts[1].id
+                return (f"let {q} := (Z.div {a} {b}) in\n  let {r} := (Z.modulo {a} {b}) in\n  "
+                        + self.block(rest, {**env, q: q, r: r}, {**ty, q: "Z", r: "Z"}, k))
+        if isinstance(s, ast.If):
+            nt = self.none_test(s.test, ty)
+
+            def branches(body_then, body_else, kk):
+                if nt is not None:
+                    name, positive = nt
+                    some_body, none_body = (body_then, body_else) if positive else (body_else, body_then)
+                    payload = f"{name}_v"
+                    a = self.block(some_body, {**env, name: payload}, {**ty, name: "Z"}, kk(True, name, payload))
+                    b = self.block(none_body, env, ty, kk(False, name, payload))
+                    return f"(match {env[name]} with\n  | Some {payload} => {a}\n  | None => {b}\n  end)"
+                c, tc = self.expr(s.test, env, ty)
+                if tc != "bool":
+                    raise Untranslatable(f"{self.name}: `if` on {tc} (Python truthiness is not translated)")
+                return f"(if {c} then {self.block(body_then, env, ty, kk(None, None, None))} else {self.block(body_else, env, ty, kk(None, None, None))})"
+
+            if self.returns([s]):
+                # some path returns: the rest of the function is the continuation of the paths that fall through
+                def kk(_some, _name, _payload):
+                    return lambda e2, t2: self.block(rest, {**env, **{n: e2[n] for n in e2 if n in env or n in self.assigned([s])}}, t2, k)
+                return branches(s.body, s.orelse, kk)
+            ws = self.assigned([s])
+            for w in ws:
+                if w not in env:
+                    raise Untranslatable(f"{self.name}: {w} assigned only inside an `if`")
+
+            def kk(some, name, payload):
+                def fin(e2, t2):
+                    vals = []
+                    for w in ws:
+                        v = e2[w]
+                        # inside a not-None branch the tested name is the payload: give back an option if it was not re-assigned
+                        if some and w == name and v == payload:
+                            v = f"(Some {payload})"
+                        vals.append(v)
+                    return "(" + ", ".join(vals) + ")" if len(vals) > 1 else vals[0]
+                return fin
+            cond = branches(s.body, s.orelse, kk)
+            pat = "'(" + ", ".join(ws) + ")" if len(ws) > 1 else ws[0]
+            return f"let {pat} := {cond} in\n  " + self.block(rest, {**env, **{w: w for w in ws}}, ty, k)
+        raise Untranslatable(f"{self.name}: statement {type(s).__name__}")
+
+
+def translate_function(src: str, func: str, params: list[tuple[str, str]], coq_name: str, consts: dict[str, str] | None = None) -> str:
+    """params: [(python name, 'Z' | 'optZ' | 'bool')] in order; must be exactly the function's parameters."""
+    tree = ast.parse(src)
+    fn = next((n for n in tree.body if isinstance(n, ast.FunctionDef) and n.name == func), None)
+    if fn is None:
+        raise Untranslatable(f"{func} not found")
+    if [a.arg for a in fn.args.args] != [p for p, _ in params] or fn.args.vararg or fn.args.kwarg or fn.args.kwonlyargs or fn.args.defaults:
+        raise Untranslatable(f"{func}: parameters {[a.arg for a in fn.args.args]}, expected {[p for p, _ in params]}")
+    tr = FunctionTranslator(func, dict(params), consts or {})
+    cty = {"Z": "Z", "optZ": "option Z", "bool": "bool"}
+    body = tr.block(fn.body, {p: p for p, _ in params}, dict(params), None)
+    sig = " ".join(f"({p} : {cty[t]})" for p, t in params)
+    return f"Definition {coq_name} {sig} :=\n  {body}.\n"
